@@ -3,23 +3,21 @@ use crate::storage;
 use acme_common::crypto::{gen_keypair, KeyPair};
 use acme_common::error::Error;
 
-async fn gen_key_pair(cert: &Certificate) -> Result<KeyPair, Error> {
-	let key_pair = gen_keypair(cert.key_type)?;
-	storage::set_keypair(&cert.file_manager, &key_pair).await?;
-	Ok(key_pair)
-}
-
 async fn read_key_pair(cert: &Certificate) -> Result<KeyPair, Error> {
 	storage::get_keypair(&cert.file_manager).await
 }
 
-pub async fn get_key_pair(cert: &Certificate) -> Result<KeyPair, Error> {
+/// Returns the key pair to use for the next certificate and whether or not it is a new one,
+/// in which case it has to be stored along with the certificate once it has been issued.
+pub async fn get_key_pair(cert: &Certificate) -> Result<(KeyPair, bool), Error> {
 	if cert.kp_reuse {
-		match read_key_pair(cert).await {
-			Ok(key_pair) => Ok(key_pair),
-			Err(_) => gen_key_pair(cert).await,
+		if let Ok(key_pair) = read_key_pair(cert).await {
+			return Ok((key_pair, false));
 		}
-	} else {
-		gen_key_pair(cert).await
 	}
+	Ok((gen_keypair(cert.key_type)?, true))
+}
+
+pub async fn store_key_pair(cert: &Certificate, key_pair: &KeyPair) -> Result<(), Error> {
+	storage::set_keypair(&cert.file_manager, key_pair).await
 }
